@@ -287,6 +287,123 @@ func c07Recovery(c *core.Ctx, idx int) {
 	c.NonTrivial(clean, []byte(ver))
 }
 
+// c07Burst: MANY malformed statements in one file. k = 2..90 well-formed statement texts (corpus bodies that
+// parse cleanly alone) are joined into one statement list — at top level or inside a function body — once as
+// they are and once with a benign malformed statement inserted behind a PRNG subset of them (up to all of
+// them). Every well-formed statement of the clean parse must still be in the recovered list, in order and
+// with the same structure ("parsing continues after it", however many errors came before), and the tree
+// must print as a sub-sequence of the source.
+func c07Burst(c *core.Ctx, idx int) {
+	r := core.NewRand(c.P.Seed, "C07burst", idx)
+	nested := r.Chance(1, 3)
+	k := r.Range(2, 12)
+	if r.Chance(1, 3) {
+		k = r.Range(30, 90)
+	}
+	bs := gen.Bodies()
+	var parts []string
+	for len(parts) < k {
+		b := bs[r.Intn(len(bs))]
+		if !bodyParses(b) || len(b) > 400 {
+			continue
+		}
+		if nested {
+			low := strings.ToLower(b)
+			if strings.Contains(low, "namespace") || strings.Contains(low, "use ") || strings.Contains(low, "const") || strings.Contains(low, "declare") {
+				continue
+			}
+		}
+		parts = append(parts, strings.TrimSpace(b))
+	}
+	ver := pickVersion(r)
+	pre, post := "<?php\n", "\n"
+	if nested {
+		pre, post = "<?php\nfunction f() {\n", "\n}\n"
+	}
+	every := r.Chance(1, 2)
+	var clean, broken strings.Builder
+	clean.WriteString(pre)
+	broken.WriteString(pre)
+	inserted := 0
+	for _, b := range parts {
+		clean.WriteString(b + "\n")
+		broken.WriteString(b + "\n")
+		if every || r.Chance(1, 2) {
+			m := gen.Benign[1+r.Intn(len(gen.Benign)-1)]
+			broken.WriteString(strings.Join(m, " ") + "\n")
+			inserted++
+		}
+	}
+	clean.WriteString(post)
+	broken.WriteString(post)
+	cp := obs.Parse([]byte(clean.String()), ver, true)
+	if cp.Panic != nil || cp.Root == nil || len(cp.Errors) > 0 {
+		c.Inconclusive("burst: the joined well-formed statements are not accepted together")
+		return
+	}
+	if inserted == 0 {
+		return
+	}
+	src := []byte(broken.String())
+	w := core.W(src, ver).With("malformed_statements_inserted", fmt.Sprint(inserted)).With("well_formed_texts", fmt.Sprint(k)).With("nested", fmt.Sprint(nested))
+	c.Inflight(src, "C07 burst "+ver)
+	bp := obs.Parse(src, ver, true)
+	c.Add("burst_cases", 1)
+	c.Max("max_malformed_statements_in_one_file", int64(inserted))
+	if bp.Panic != nil {
+		c.Add("parses_that_panicked(C01's business)", 1)
+		return
+	}
+	sig := fmt.Sprintf("recovery|fam%d|burst|", obs.Fam(ver))
+	if len(bp.Errors) == 0 {
+		c.Violation(sig+"no-error", "malformed statements were inserted but no error was delivered", w)
+		return
+	}
+	if bp.Root == nil {
+		c.Violation(sig+"no-tree", fmt.Sprintf("no tree is returned for a file with %d benign malformed statements between well-formed ones", inserted), w)
+		return
+	}
+	list := func(root ast.Vertex) []ast.Vertex {
+		var top []ast.Vertex
+		for _, f := range obs.Fields(root) {
+			if f.Name == "Stmts" {
+				top = f.Nodes
+			}
+		}
+		if !nested {
+			return top
+		}
+		for _, st := range top {
+			if obs.Kind(st) == "StmtFunction" {
+				for _, f := range obs.Fields(st) {
+					if f.Name == "Stmts" {
+						return f.Nodes
+					}
+				}
+			}
+		}
+		return nil
+	}
+	cl, bl := list(cp.Root), list(bp.Root)
+	j := 0
+	for i, st := range cl {
+		want := obs.StructureCanon(st)
+		for j < len(bl) && obs.StructureCanon(bl[j]) != want {
+			j++
+		}
+		if j == len(bl) {
+			c.Violation(sig+"following-lost|"+obs.Kind(st), fmt.Sprintf("well-formed statement #%d of %d (%s) is missing from the list recovered from a file with %d malformed statements (%d errors delivered, %d statements recovered)", i, len(cl), obs.Kind(st), inserted, len(bp.Errors), len(bl)), w)
+			return
+		}
+		j++
+	}
+	c.Add("burst_statements_found_again", int64(len(cl)))
+	if !checkProvenance(c, bp.Root, src, ver) {
+		return
+	}
+	c.NonTrivial(src, []byte(ver))
+}
+
 func c07Hostile(c *core.Ctx, src []byte, ver string) {
 	c.Inflight(src, "C07 parse "+ver)
 	pr := obs.Parse(src, ver, true)
@@ -301,7 +418,7 @@ func c07Hostile(c *core.Ctx, src []byte, ver string) {
 func init() {
 	core.Register(&core.Check{
 		ID:   "C07",
-		Rule: "cases = known-finding witnesses ++ alternately (a) a generated valid PHP-mode program with 4 (quick) / 12 (thorough) independent insertions of a benign malformed statement (17 shapes such as ') ;', '$x = ;', 'foo( ;') at a PRNG statement boundary of a PRNG statement list, compared with the clean parse, and (b) a hostile G3 input whose parse returns a tree together with errors, printed through the provenance writer; non-trivial = recovery program whose insertions were all compared / hostile tree printed; distinct by (clean text, version) / (input, version)",
+		Rule: "cases = known-finding witnesses ++ alternately (a) a generated valid PHP-mode program with 4 (quick) / 12 (thorough) independent insertions of a benign malformed statement (17 shapes such as ') ;', '$x = ;', 'foo( ;') at a PRNG statement boundary of a PRNG statement list, compared with the clean parse, (a') 2..90 well-formed statement texts joined into one list (top level or function body) with a benign malformed statement behind a PRNG subset or all of them: every well-formed statement must be found again in order, and (b) a hostile G3 input whose parse returns a tree together with errors, printed through the provenance writer; non-trivial = recovery program whose insertions were all compared / hostile tree printed; distinct by (clean text, version) / (input, version)",
 		Assumptions: []string{
 			"benign malformed statements cannot extend the preceding statement nor start a valid one and end in ';'",
 			"printer glue = '<?php ', one blank, '?>'; every other chunk must alias the source buffer (token values are slices of it)",
@@ -311,6 +428,10 @@ func init() {
 		Run: func(c *core.Ctx, idx int) {
 			if idx%2 == 0 {
 				c07Recovery(c, idx)
+				return
+			}
+			if idx%8 == 3 {
+				c07Burst(c, idx)
 				return
 			}
 			pc := genParseCase(c.P.Seed, "C07h", idx, 90)
